@@ -203,3 +203,26 @@ claim('C11', 'other',
       'round trip are NOT decided.',
       'trusts: EXEMPT table of documented aborts in sa/props/c11.py',
       'DESIGN.md 3.E, 4/C11')
+
+
+# clauses added in rounds 4-5 (appended to the technique / decided text of the claims above; see DESIGN.md section 14)
+_MORE = {
+    'C01': ('; interim-cache typestate facts (a cached value filled and then invalidated inside one method is dropped before exit)',
+            ' Also: no method returns with a cached value computed before one of its own raw writes.'),
+    'C03': ('; regex-AST comparison of the two ITEM copies of list patterns', ' Also: every element of a CXSMILES list is read with the same sub-pattern.'),
+    'C06': ('; control-dependence rule for the simple-cycle test of the SSSR candidate generator', ' Also: every ring candidate emitted by _c_set is guarded by the simple-cycle test over the very walk it emits.'),
+    'C07': ('; flag-polarity rule (reach conditions evaluated for both values of automorphism_filter)', ' Also: symmetric images are re-expanded exactly when the filter is off and skipped exactly when it is on.'),
+    'C08': ('; complement relation between the bond-symbol table and the NOT-bond table', ' Also: !<bond> admits exactly the other ordinary orders.'),
+    'C09': ('; dead-update lint (useful liveness) over the encoders', ' Also: every mask contribution reaches a word that is stored.'),
+    'C11': ('; disjoint id-domain rule for V3000 star points', ' Also: a star-point id is never looked up among the numbered atoms.'),
+    'C13': ('; interim-cache typestate facts', ' Also: no method returns with a cached value computed before one of its own raw writes.'),
+    'C14': ('; patch-order rule: walk order of atom_fix read from the loop header and evaluated against the overflow possibilities of every rule pattern',
+            ' Also: an abandoned match cannot leave an earlier atom patched (all-or-nothing under the +4 cap) for any built-in rule.'),
+    'C15': ('; __hash__ / __eq__ attribute multiset comparison for the dynamic atom / bond classes', ' Also: CGR atom and bond hashes read each compared attribute exactly once.'),
+    'C17': ('; hoisted-precomputation clause of the order-free hash rule', ' Also: nothing hashed inside the radius loop was computed before it from identifiers the loop rebinds.'),
+    'C19': ('; interim-cache typestate facts; hoisted-precomputation clause', ' Also: first call and cached call agree because no method leaves an entry computed for an earlier state.'),
+}
+for _pid, (_t, _x) in _MORE.items():
+    if _pid in CLAIMS:
+        _c = CLAIMS[_pid]
+        CLAIMS[_pid] = (_c[0], _c[1] + _t + '; all rules run behind the de-refactoring normaliser sa/normalize.py (new helpers / lookup tables inlined)', _c[2] + _x, _c[3], _c[4])
